@@ -44,6 +44,7 @@ fn usage() -> ! {
 
 extern "C" {
     fn signal(signum: i32, handler: extern "C" fn(i32)) -> usize;
+    fn setrlimit(resource: i32, rlim: *const [u64; 2]) -> i32;
 }
 
 /// SIGABRT: the code under test aborted the process (see report::aborted). Runs on the aborting
@@ -55,6 +56,12 @@ extern "C" fn on_abort(_sig: i32) {
 fn main() {
     unsafe {
         signal(6, on_abort);
+        // RLIMIT_AS (9 on Linux): code under test that allocates without bound (a list parser
+        // that makes no progress) then fails to allocate and aborts — which the handler turns into
+        // a verdict — instead of being killed by the kernel together with everything else
+        let gib: u64 = std::env::var("MC_AS_LIMIT_GIB").ok().and_then(|s| s.parse().ok()).unwrap_or(40);
+        let lim = [gib << 30, gib << 30];
+        setrlimit(9, &lim);
     }
     // Quiet panic messages from the code under test: every call is wrapped in catch_unwind and
     // the payload is recorded; the default hook would flood stderr.
